@@ -4,25 +4,8 @@
 From Coq Require Import List NArith ZArith Bool Lia ZifyBool ZifyN.
 Import ListNotations.
 Require Import Verif.Lib.Wire Verif.Lib.Text Verif.Lib.Utf8 Verif.Lib.Percent Verif.Lib.C06Utf8
-               Verif.Gen.Facts_C17 Verif.Model.C17 Verif.Proofs.C17.
+               Verif.Gen.Facts_C17 Verif.Model.C17 Verif.Model.C17_glue Verif.Proofs.C17.
 Open Scope N_scope.
-
-(* ---- the declarative reading *)
-Definition kw_text (is_star : bool) (v : kwval) : option text :=
-  match v with
-  | KScalar x => spec_text x
-  | KSeq l shown =>
-      if is_star then olet ts := map_opt spec_text l in Some (join [47] ts)
-      else if forallb valid_scalar shown then Some shown else None
-  end.
-Definition slot_text (p : pattern) (kw : list (text * kwval)) (n : text) : option text :=
-  olet v := assoc n kw in kw_text (is_star_key p n) v.
-Definition hole_text (p : pattern) (kw : list (text * kwval)) (h : text * text) : option text :=
-  olet t := slot_text p kw (fst h) in Some (t ++ snd h).
-Definition spec_path_text (p : pattern) (kw : list (text * kwval)) : option text :=
-  olet hs := map_opt (hole_text p kw) (p_holes p) in
-  olet st := match star_slot p with Some r => slot_text p kw r | None => Some [] end in
-  Some (p_prefix p ++ concat hs ++ st).
 
 (* ---- chunks: pieces of a quoted text that decode independently of what follows *)
 Definition chunk (c b : text) : Prop := forall rest, unquote (c ++ rest) = b ++ unquote rest.
